@@ -48,7 +48,7 @@ TRANSLATORS = [
     ('gen_C07', [('generate', 'C07_Code.v')]),
     ('gen_C08', [('generate_keys', 'C08_Keys.v'), ('generate_shape', 'C08_Shape.v')]),
     ('gen_C09', [('generate', 'C09_Excutils.v')]),
-    ('gen_C10', [('generate', 'C10_Units.v'), ('generate_code', 'C10_Code.v')]),
+    ('gen_C10', [('generate', 'C10_Units.v'), ('generate_code', 'C10_Code.v'), ('generate_qemu', 'C10_QemuCode.v')]),
     ('gen_C11', [('generate', 'C11_Netutils.v'), ('generate_code', 'C11_Code.v')]),
     ('gen_C12', [('generate', 'C12_Timeutils.v')]),
     ('gen_C13', [('generate', 'C13_StopWatch.v')]),
